@@ -104,8 +104,8 @@ def main(
     # --------------
 
     logger.info("Starting time loop")
-    # for step in range(model.timer.Nsteps + 1):
-    for _step in range(model.timer.Nsteps):
+    # A warm start has already taken the model to step 0
+    while model.timer.step < model.timer.Nsteps - 1:
         model.update()
 
     # --------------
